@@ -7,7 +7,9 @@ import BfeVerif.C03.Model
        steps = `q<RetryTime>:<client ip hex>` (Balance, strategy ClientIpOnly)
                `a<sub>.<backend>=<0|1>` (SetAvail)  `c<sub>.<backend>=<n>` (connNum := n)   (positions in op order)
                `R<name>:<weight>/<name>:<weight>...` (`bal.Reload` with that gslb conf; result token `Rok` | `Rerr`)
-               `U<name>=<backend>` (`BackendReload` giving one backend to a sub-cluster that has none)
+               `U<name>=<backend>` (`BackendReload` giving one backend to a sub-cluster that has none; it is marked restarted)
+               `S<seconds>` (`bal.SetSlowStart`)  `r<sub>.<backend>=1` (`SetRestart(true)`, as the health checker does)
+               `t<sub>.<backend>=<seconds>` (clock hook: the backend's slow start began that many seconds ago)
   result = per `q`: `ok:<SubclusterName>:<AddrInfo with : -> _>:<RetryTime after>` | `err:<code>:<SubclusterName|?>:<RetryTime after>`
   The `rand` of randomSelectExclude is read back from the implementation's answer: the model repeats the
   implementation's cross sub-cluster iff it is one of those `randomSelectExclude` may return.
@@ -18,7 +20,7 @@ open BfeVerif.Proto BfeVerif
 def parseBe (s : String) : Option Be :=
   match s.splitOn "/" with
   | [a, w, c, av] => match w.toInt?, c.toInt? with
-    | some w, some c => some { addr := a, w := w, cur := w, conn := c, avail := av == "1" }
+    | some w, some c => some { addr := a, w := w, cur := w, conn := c, avail := av == "1", final := w }
     | _, _ => none
   | _ => none
 
@@ -56,7 +58,7 @@ def judge (c : Cl) (retry : Int) (h : Nat) (tok : String) : Option String :=
   let subOf (n : String) := c.subs.find? (·.name == n)
   let budget := decide (retry ≤ c.retryMax + c.crossRetry)
   let inOk := match first with
-    | some cur => cur.name != blackholeName && decide (retry ≤ c.retryMax) && hasElig cur
+    | some cur => cur.name != blackholeName && decide (retry ≤ c.retryMax) && hasElig c.algo cur
     | none => false
   let oth : List SubSt := match first with
     | some cur => c.subs.filter fun (s : SubSt) => s.name != cur.name && decide (0 ≤ s.w) && s.name != blackholeName
@@ -67,7 +69,7 @@ def judge (c : Cl) (retry : Int) (h : Nat) (tok : String) : Option String :=
     | some s =>
       if s.name == blackholeName then some "blackhole-forwarded"
       else if s.w < 0 then some "negative-weight-sub"
-      else match s.bs.find? (fun b => b.addr.replace ":" "_" == a2) with
+      else match (effBs c.algo s).find? (fun b => b.addr.replace ":" "_" == a2) with
         | none => some "unknown-backend"
         | some b =>
           if !b.avail then some "unavailable-backend"
@@ -93,7 +95,7 @@ def judge (c : Cl) (retry : Int) (h : Nat) (tok : String) : Option String :=
         else if oth.isEmpty then (if a1 == "no-sub-cross" then none else some "spurious-error")
         else if a1 == "cross-retry-balance" then
           (match oth.find? (fun (o : SubSt) => o.name == a2) with
-           | some o => if hasElig o then some "spurious-error" else none
+           | some o => if hasElig c.algo o then some "spurious-error" else none
            | none => some "spurious-error")
         else some "spurious-error"
   else some "unparsable"
@@ -139,6 +141,17 @@ def qStep (st : St) (retry : Int) (key : List UInt8) (tok : String) : St :=
   let st := match judge st.sc retry h tok, st.verdict with
     | some cls, none => { st with verdict := some cls }
     | _, _ => st
+  -- the specification state follows the restart flags consumed by checkSlowStart in the sub-clusters this
+  -- call visited: the hash choice (if an in-cluster attempt is due) and the sub-cluster the implementation names
+  let sc := st.sc
+  let firstN := (specFirst sc h).map (·.name)
+  let visitFirst := decide (retry ≤ sc.retryMax + sc.crossRetry) && decide (retry ≤ sc.retryMax) && firstN != some blackholeName
+  let sc := { sc with subs := sc.subs.map fun s =>
+      if (visitFirst && firstN == some s.name) || (decide (retry ≤ sc.retryMax + sc.crossRetry) && s.name == iSub && firstN != some iSub)
+      then { s with bs := effBs sc.algo s } else s }
+  let st := { st with sc := sc }
+  let st := if c.subs.any (fun s => decide (0 < s.ss) && s.bs.any fun b => b.restart || b.inSS) then addTag st "slow-start" else st
+  let st := if c.subs.any (fun s => decide (0 < s.ss) && s.bs.any fun b => b.restart && decide (b.final ≤ 0) && b.avail) then addTag st "ss-restart-weight0" else st
   let st := match r.1 with
     | .ok s _ => addTag (if (firstChoice c h).map (·.name) == some s then addTag st "in-cluster" else addTag st "cross-ok") "nt"
     | .err e _ => addTag st ("e-" ++ errName e)
@@ -182,9 +195,18 @@ def step (subsOp : List SubSt) (st : St) (s : String) (tok : String) : St :=
     match ((s.drop 1).toString).splitOn "=" with
     | [n, b] => match parseBe b, st.c.subs.find? (fun x => x.name == n) with
       | some b, some sub =>
-        if sub.bs.isEmpty then { st with c := setBs st.c n [b], sc := setBs st.sc n [b] } else { st with bad := true }
+        -- `Update` marks a new backend as restarted
+        if sub.bs.isEmpty then { st with c := setBs st.c n [{ b with restart := true }], sc := setBs st.sc n [{ b with restart := true }] }
+        else { st with bad := true }
       | _, _ => { st with bad := true }
     | _ => { st with bad := true }
+  else if s.startsWith "S" then
+    -- `S<seconds>`: bal.SetSlowStart on every sub-cluster that exists now
+    match ((s.drop 1).toString).toInt? with
+    | some t =>
+      let f := fun (c : Cl) => { c with subs := c.subs.map fun x => { x with ss := t } }
+      { st with c := f st.c, sc := f st.sc }
+    | none => { st with bad := true }
   else
     let kind := (s.take 1).toString
     match ((s.drop 1).toString).splitOn "=" with
@@ -194,7 +216,10 @@ def step (subsOp : List SubSt) (st : St) (s : String) (tok : String) : St :=
           match subsOp[si]? with
           | some sub => match sub.bs[bi]? with
             | some b =>
-              let f : Be → Be := if kind == "a" then (fun x => { x with avail := v == 1 }) else (fun x => { x with conn := v })
+              let f : Be → Be := if kind == "a" then (fun x => { x with avail := v == 1 })
+                else if kind == "r" then (fun x => { x with restart := true })   -- health checker: SetRestart(true)
+                else if kind == "t" then (fun x => { x with age := v })          -- clock: startTime = now - v seconds
+                else (fun x => { x with conn := v })
               { st with c := updBe st.c sub.name b.addr f, sc := updBe st.sc sub.name b.addr f }
             | none => { st with bad := true }
           | none => { st with bad := true }
